@@ -27,10 +27,10 @@ func init() {
 		Assumptions: []string{
 			"the reference PDA is RFC 8259 (cross-checked against encoding/json.Valid on every enumerated string; a disagreement aborts with exit 3)",
 			"acceptance of the real scanner depends only on the control key exposed by the hook (validated: merged states have their successors recomputed and compared)",
-			"trailing mode: inputs where maximal munch of a top-level number admits two readings (1.x, 1ex, 01) are not asserted",
+			"trailing mode: inputs where maximal munch of a top-level number ends inside an incomplete number (1.x, 1ex) are not asserted; a complete number followed by a digit (01) is",
 			"bytes >= 0x80 that are not valid UTF-8 are not asserted",
 		},
-		QuickBudget:    70 * time.Second,
+		QuickBudget:    150 * time.Second,
 		ThoroughBudget: 12 * time.Minute,
 	})
 }
